@@ -23,7 +23,7 @@ def run(ctx, mode='C02'):
     cov = ctx.coverage
     cov['rule'] = ('generated scope bodies (prologue binding ~70% of 6 names, then 3-6 random statements, depth<=3; forms: '
                    'plain/annotated/walrus/tuple/chain/starred assignment, import, from-import, def, class, with, if/else, '
-                   'while/else, for/else, try/except(as)/else/finally, return) rendered in function, module and class scope; '
+                   'while/else, for/else, try/except(as)/else/finally, return, comprehension values with a condition) rendered in function, module and class scope; '
                    'per program: decision lists enumerated odometer-style with <=2 trips per loop up to a cap. '
                    'non-trivial = an execution with at least one successful read whose row has >1 alternative or sits in a loop/try')
     c03 = (mode == 'C03')
@@ -33,10 +33,11 @@ def run(ctx, mode='C02'):
     for i in range(nprog):
         scope = ctx.rng.choice(['func'] * 7 + ['module'] * 2 + ['class'])
         if c03:
-            g = pygen.Gen(ctx.rng, allow_return=False, full_raise=True, max_stmts=ctx.rng.choice([4, 6, 8]), max_depth=3)
+            g = pygen.Gen(ctx.rng, allow_return=False, full_raise=True, max_stmts=ctx.rng.choice([4, 6, 8]), max_depth=3,
+                          comps=(scope != 'class'))
             trees.append((g.program(lo=2, hi=4), scope))
         else:
-            g = pygen.Gen(ctx.rng, allow_return=(scope == 'func'), full_raise=False)
+            g = pygen.Gen(ctx.rng, allow_return=(scope == 'func'), full_raise=False, comps=(scope != 'class'))
             trees.append((g.program(), scope))
 
     src_of, lay_of = {}, {}
